@@ -1,6 +1,6 @@
 (* C19 — property theorems only. *)
 From Coq Require Import List String ZArith Bool Ascii.
-From C19 Require Import Model Spec Lex LexProofs Proofs Session SessionSpec SessionProofs Classes ClassesProofs ClassOrder.
+From C19 Require Import Model Spec Lex LexProofs Proofs Session SessionSpec SessionProofs Classes ClassesProofs ClassOrder ProofsFlavorSession.
 Import ListNotations.
 
 (* (1) LOAD FORMS.  For EVERY value of the modelled universe inside the guard -- numbers, strings, characters, symbols,
@@ -146,3 +146,70 @@ Print Assumptions C19_class_order_block.
 Theorem C19_rank_zero_refuted : reload (Arr [] [Fix 7] T true) = Err EType /\ loadable (Arr [] [Fix 7] T true) = false.
 Proof. exact rank_zero_refuted. Qed.
 Print Assumptions C19_rank_zero_refuted.
+
+(* (3e) The session round trip WITH FLAVORS AND INSTANCES, proved (it was only evaluated per run, self-check code 3, and
+   C19_flavor_session_nonvacuous above is one evaluated instance; the theorems below subsume it for every state inside
+   sess_ok_f). For EVERY session state with unique names inside the guard sess_ok_f -- any number of flavors (instance
+   variables with any loadable default, blanket options, documentation), variables holding instances of these flavors
+   (nested without bound, inside lists, holding lists, tables, lambdas, symbols), constants, variables without a value,
+   functions and macros -- loading the snapshot the model writes into an empty session rebuilds the same session (the
+   same flavors, the same instances with the same values of their variables, compared as sorted association lists),
+   every form of the snapshot loads, and the snapshot of the rebuilt session is the same list of forms. Proof: the three
+   sections of the snapshot in order (constants through C19_snapshot_roundtrip's load_consts; every defflavor form read
+   back by defflavor, defaults through the element-form lemma reloads_in; the variables, where the variable of a flavor
+   is left as it is by its defvar/setq pair and a value holding instances evaluates back by value_reloads in the
+   environment that by then knows every flavor), then a permutation. sess_ok_f is sess_ok_x (C19_flavor_guard_inside)
+   tightened in five places where the statement is FALSE of the model inside sess_ok_x; each has its witness in
+   C19_flavor_session_refuted: a constant holding an instance (constants are written before the flavors; reachable by
+   a history: C19_constant_instance_history_refuted), a documentation string on the variable of a flavor (defflavor
+   sets none), instance variables out of name order, a blanket option on a flavor without instance variables (two
+   states no defflavor builds), and a flavor OBJECT inside another value that differs from the session's flavor of
+   that name. For the last one the new guard leaves out every flavor object inside another value (snap_safe instead of
+   snap_safe_x), also the consistent ones: that part of sess_ok_x stays evaluated per run. *)
+Theorem C19_flavor_session_roundtrip : forall s, keys_nodup s -> sess_ok_f s = true ->
+  canon (reload_session s) = canon s
+  /\ snapshot (reload_session s) = snapshot s
+  /\ forallb (fun b => b) (snd (load_forms empty_session (snapshot s))) = true.
+Proof. exact flavor_session_roundtrip. Qed.
+Print Assumptions C19_flavor_session_roundtrip.
+(* ... for the session built by every history of definition forms the interpreter accepts *)
+Theorem C19_flavor_history_roundtrip : forall hist s, run empty_session hist = Ok s -> sess_ok_f s = true ->
+  canon (reload_session s) = canon s /\ snapshot (reload_session s) = snapshot s
+  /\ forallb (fun b => b) (snd (load_forms empty_session (snapshot s))) = true.
+Proof. exact flavor_history_roundtrip. Qed.
+Print Assumptions C19_flavor_history_roundtrip.
+(* ... in the decidable form the per-run self-check evaluates: inside sess_ok_f code 3 cannot occur *)
+Theorem C19_flavor_guard_meets_spec : forall s, keys_nodup s -> sess_ok_f s = true -> meets_spec s = true.
+Proof. exact flavor_guard_meets_spec. Qed.
+Print Assumptions C19_flavor_guard_meets_spec.
+(* the new guard lies inside the guard of the per-run comparison *)
+Theorem C19_flavor_guard_inside : forall s, sess_ok_f s = true -> sess_ok_x s = true.
+Proof. exact sess_ok_f_x. Qed.
+Print Assumptions C19_flavor_guard_inside.
+(* non-vacuity: a history that defines a flavor with two instance variables, an instance changed by send that holds a
+   list and a nested instance, a list holding an instance, a constant, a variable without a value, a function *)
+Theorem C19_flavor_guard_nonvacuous :
+  let s := run_or_empty ex_flavor_history2 in
+  run empty_session ex_flavor_history2 = Ok s
+  /\ sess_ok_f s = true /\ sess_ok_x s = true /\ sess_ok s = false
+  /\ alookup (s_vars s) "blk" = Some (mkV (Some (Flv "blk" [("sa", Nil); ("sb", Fix 2)] true true true "a block")) "" false)
+  /\ alookup (s_vars s) "*bi*" = Some (mkV (Some (Inst "blk" [("sa", L [Fix 1; Fix 2; Fix 3]);
+                                                              ("sb", Inst "blk" [("sa", Fix 7); ("sb", Fix 2)])])) "an instance" false)
+  /\ List.length (s_vars s) = 5 /\ List.length (snapshot s) = 10.
+Proof. exact ex_flavor_history2_ok. Qed.
+Print Assumptions C19_flavor_guard_nonvacuous.
+(* where sess_ok_x is too wide for the statement: five states with unique names inside sess_ok_x, outside sess_ok_f,
+   whose snapshot does not rebuild them (the decidable specification is false and the reloaded session differs) *)
+Theorem C19_flavor_session_refuted :
+  forallb (fun s => keys_nodup_b s && sess_ok_x s && negb (sess_ok_f s) && negb (meets_spec s)
+                    && negb (session_eqb (canon (reload_session s)) (canon s)))
+          [wit_const_inst; wit_flavor_doc; wit_unsorted; wit_empty_option; wit_stale_flavor] = true.
+Proof. exact flavor_session_refuted. Qed.
+Print Assumptions C19_flavor_session_refuted.
+Theorem C19_constant_instance_history_refuted :
+  run empty_session
+    [ L [Sym "defflavor"; Sym "blk"; L [Sym "sa"; L [Sym "sb"; Fix 2]]; Nil; Sym ":gettable-instance-variables";
+         Sym ":settable-instance-variables"; Sym ":inittable-instance-variables"];
+      L [Sym "defconstant"; Sym "+ci+"; L [Sym "make-instance"; quote (Sym "blk"); Sym ":sa"; Fix 1]] ] = Ok wit_const_inst.
+Proof. exact const_inst_history_refuted. Qed.
+Print Assumptions C19_constant_instance_history_refuted.
